@@ -2,6 +2,8 @@ package props
 
 import (
 	"fmt"
+	"runtime"
+	"time"
 
 	"pipelined.dev/signal"
 	"verifharness/core"
@@ -61,12 +63,79 @@ func runC04(c *core.Ctx) {
 			// into a narrow integer anywhere
 			c04Case(c, t, []int{255, 256, 257, 300, 1000}[i%5], 3, 1, 2, "wide/"+t.Name, 0)
 		}
+		if c.Mine(i+3) && c.Want("recycled/"+t.Name) {
+			c04Recycled(c, t, 1+i%4, "recycled/"+t.Name)
+		}
 		if c.Mine(i+5) && c.Want("large/"+t.Name) {
 			c04Case(c, t, 1+(i+3)%8, 700, 2, 5, "large/"+t.Name, 0)
 		}
 	}
 	c.Floor("noop_calls_on_full", 100)
 	c.Floor("appending_calls", 1000)
+}
+
+// c04Recycled appends sample by sample to a buffer that an earlier holder
+// obtained from the same pool, appended to and put back.
+func c04Recycled(c *core.Ctx, t *dyn.TypeOps, ch int, caseID string) {
+	inst := "AppendSample[" + t.Name + "]"
+	d := map[string]any{"type": t.Name, "channels": ch, "buffer": "recycled through a pool (Get, 5 sample appends, Put, Get)"}
+	p, msg := core.Guard(func() {
+		pool := t.PoolAlloc(signal.Allocator{Channels: ch, Length: 0, Capacity: 4})
+		for round := 0; round < 3; round++ {
+			g := pool.Get()
+			for i := 0; i < 5; i++ {
+				g.AppendSample(t.FromInt(int64(1 + i)))
+			}
+			pool.Put(g)
+		}
+		b := pool.Get()
+		for call := 1; call <= ch*4+3; call++ {
+			c.Eval(1)
+			c.Distinct(core.NewHash().Str(caseID).Int(call).Sum())
+			wantLen := min(call, ch*4)
+			v := t.FromInt(int64(10 + call))
+			b.AppendSample(v)
+			if b.Len() != wantLen || b.Length() != mon.CeilDiv(wantLen, ch) || b.Cap() != ch*4 || b.Capacity() != 4 {
+				c.Violate(inst+"|shape|recycled", caseID, fmt.Sprintf("after %d sample appends on a recycled pool buffer: %v, expected Len %d Length %d", call, mon.ShapeOf(b), wantLen, mon.CeilDiv(wantLen, ch)), d)
+				return
+			}
+			if call <= ch*4 && !b.Sample(call-1).Same(v) {
+				c.Violate(inst+"|value|recycled", caseID, fmt.Sprintf("position %d holds %v, appended %v", call-1, b.Sample(call-1), v), d)
+				return
+			}
+		}
+		c.Obs("recycled_pool_buffers_appended_to", 1)
+		// a window of a pooled buffer whose own header is dropped: the samples
+		// appended through the window must survive garbage collections and
+		// later use of the pool
+		win := pool.Get().Slice(1, 1)
+		var want []dyn.Val
+		for i := 0; i < ch*2; i++ {
+			v := t.FromInt(int64(40 + i))
+			win.AppendSample(v)
+			want = append(want, v)
+		}
+		for round := 0; round < 3; round++ {
+			runtime.GC()
+			runtime.Gosched()
+			time.Sleep(300 * time.Microsecond)
+			other := pool.Get()
+			for i := 0; i < ch*4; i++ {
+				other.AppendSample(t.FromInt(int64(90 + i)))
+			}
+			for i, w := range want {
+				if win.Len() != len(want) || !win.Sample(i).Same(w) {
+					c.Violate(inst+"|window-of-pooled-buffer-after-gc", caseID, fmt.Sprintf("a window Slice(1,1) of a pooled buffer (root header dropped): after a garbage collection and another Get, appended sample %d reads %v instead of %v (Len %d)", i, win.Sample(i), w, win.Len()), d)
+					return
+				}
+			}
+			runtime.KeepAlive(other)
+		}
+		c.Obs("windows_of_dropped_pool_buffers_rechecked_after_gc", 1)
+	})
+	if p {
+		c.Violate(inst+"|panic|recycled", caseID, "appending to a recycled pool buffer panicked: "+msg, d)
+	}
 }
 
 func c04Case(c *core.Ctx, t *dyn.TypeOps, ch, k, s, e int, caseID string, forceCalls int) {
